@@ -105,7 +105,7 @@ def small_space(quick):
             for mx in (-1, 0, 3, 4, 8) for mr in (-1, 6) for a in asts]
     reqs = [{"method": m, "framing": f, "size": s} for m in ("GET", "POST", "HEAD") for f in ("declared", "chunked")
             for s in ((0, 1, 3, 4, 5, 8, 9) if not quick else (0, 3, 4, 5, 9))]
-    scr = [{"status": st, "writes": w, "cl0": c} for st in (0, 200, 204, 502) for w in ([], [2], [3, 2], [5, 5], [2, 0], [0]) for c in (False, True)]
+    scr = [{"status": st, "writes": w, "cl0": c} for st in (0, 200, 204, 502) for w in ([], [2], [3, 2], [5, 5], [2, 0], [0], [7, 5]) for c in (False, True)]
     sets = [[a] for a in scr] + [[a, b] for a in scr if a["status"] == 502 and not a["cl0"] for b in scr]
     return cfgs, reqs, sets
 
